@@ -11,7 +11,7 @@ class Ctx:
     def __init__(s, src, prop, tier='quick'):
         s.src = src; s.prop = prop; s.tier = tier
         s.obs = []; s.functions = {}; s.assumptions = []; s.bounded = []; s.notes = []; s.paths = 0
-        s.exp_log = set()
+        s.exp_log = set(); s.extra_violations = []; s.extra_undecided = []
 
     def under_contract(s, qual, how="body executed symbolically"):
         f = s.src.find(qual)
@@ -24,6 +24,31 @@ class Ctx:
         if any(x.name == name for x in s.obs): raise Unsupported("duplicate obligation name " + name)
         s.obs.append(o)
         return o
+
+    def validators_always_run(s):
+        """Precondition of the attrs constructor contract (DESIGN 5(7)): the process-global validator switch of attrs is never written by
+        the package, so every construction runs its validators whatever was called (or raised) before.  No reference in the package ->
+        discharged (frame: the switch has no writer).  A reference -> the native probe drives the error and normal exits of every entry
+        point and then constructs an out-of-range Composition: accepted -> VIOLATION with that sequence; not reproduced -> UNDECIDED
+        (constructions inside a validator-free region are outside the engine's attrs model, so nothing may be claimed)."""
+        name = "attrs.validators-always-run"
+        stmt = "no code in the package switches the attrs validators off (attr.validators.set_disabled / attr.set_run_validators / validators.disabled()): invariants checked on construction hold after any call history, including calls that raised"
+        refs = s.src.attrs_switch_refs()
+        if not refs:
+            return s.ob(name, [], blit(True), kind='scan', found='[]', statement=stmt)
+        from ..nativeio import native
+        try:
+            out = native(dict(cmd='check', prop='attrsw', cases=[dict()]), timeout=600)
+            fails = [f for f in (out[0] if out else [])]
+        except Exception as x:
+            fails = ["CHECKER-EXCEPTION %s: %s" % (type(x).__name__, x)]
+        if fails and not any(str(f).startswith('CHECKER-EXCEPTION') for f in fails):
+            s.extra_violations.append(dict(name=name, prop=s.prop, status='refuted', native_failures=fails, backend='scan+native', native_prop='attrsw',
+                                           native_case=dict(sequence="pvc.native.attrsw: error exits of every entry point (C19 corpus), normal runs of the process models, then Composition(p=1.5) / Composition(p=-0.2)", references=[list(r) for r in refs]),
+                                           detail="the package writes the attrs validator switch at %s and an out-of-range Composition is accepted afterwards" % (refs[:3],),
+                                           meta=dict(kind='scan', found=str(refs)[:300], statement=stmt)))
+        else:
+            s.extra_undecided.append(dict(name=name, detail="the package references the attrs validator switch at %s; the native probe did not reproduce a leaked switch (%s) - validator-free constructions are outside the attrs model" % (refs[:3], fails[:1])))
 
     def cover(s, name, hyps, **meta):
         """reachability / non-vacuity: the hypotheses must be satisfiable"""
